@@ -147,6 +147,15 @@ PROPS = {
                     "the token request's use of the current value is read through GetClientSecret() and, for a sample, from the Authorization header of a real code exchange"],
         "assumptions": ["Reconcile calls are serialised (controller-runtime's default of one worker per controller); the data race between Reconcile and checks is C16's business"],
     },
+    "C20": {
+        "modules": ["Properties.C20"],
+        "theorems": ["C20_trust_matches_config", "C20_skip_only_if_requested_and_no_ca", "C20_identical_settings_share", "C20_distinct_settings_distinct",
+                     "C20_rotation", "C20_superseded_watcher_stops"],
+        "describe_item": (lambda d, it: {"scenario": d.get("scenario"), "op_index": it, "op": (d.get("ops") or [None] * (it + 1))[it] if isinstance(it, int) and it < len(d.get("ops") or []) else None}),
+        "signature": (lambda d, it, codes: "C20/same-file-watcher-superseded" if codes == [12] else None),
+        "trusted": ["X.509 verification and the TLS handshake are Go's (judged by real handshakes against loopback servers of throw-away CAs); timers are real (waits of ten intervals); FNV-64a is assumed collision-free on the explored pool keys"],
+        "assumptions": ["LoadTLSConfig calls are not concurrent with one another in the explored sequences (the lookup-then-insert window of the pool is not explored)"],
+    },
     "C03": {
         "modules": ["Properties.C03"],
         "theorems": ["C03_login_completes", "C03_lifetime"],
